@@ -92,3 +92,21 @@ def stress(rng):
     if k == 'divzero': return b'#include "aldor"\nimport from MachineInteger;\nf(): MachineInteger == { if false then 1 quo 0 else 2 }\nf();\n', k, False
     if k == 'deepcomment': return (('-- x\n' * n) + ('+' + '+ doc\n') * n + 'x := 1;\n').encode(), k, False
     return b'', 'empty', False
+
+def ifsoup_accounted(rng):
+    """conditional-compilation directive soup with the mutator's own accounting: depth and #else-seen per level decide
+    validity (used in the seed-dependent slice only: the fixed sequence must not change)"""
+    parts = []; stack = []; bad = False
+    for _ in range(rng.randint(1, 40)):
+        c = rng.choice(['#if ZqA', '#if ZqB', '#else', '#endif', '#assert ZqA', '#unassert ZqA', '-- comment', ''])
+        if c.startswith('#if'): stack.append(False)
+        elif c == '#else':
+            if not stack or stack[-1]: bad = True
+            else: stack[-1] = True
+        elif c == '#endif':
+            if not stack: bad = True
+            else: stack.pop()
+        parts.append(c)
+        if bad: break
+    if stack: bad = True
+    return ('\n'.join(parts) + ('\n' if rng.random() < 0.8 else '')).encode(), 'ifsoup-accounted' + ('-unbalanced' if bad else '-balanced'), bad
